@@ -258,6 +258,23 @@ for _pid, _txt in ADDENDA9.items():
         PROPS[_pid]["explanation"] += _txt
 
 
+ADDENDA10 = {
+    "C01": " C01.17 the reserved words are consulted; C01.18 positive type tests in the value writer.",
+    "C03": " C03.12 sense of the distinct-qubits refusal.",
+    "C06": " C06.20 _depends_on_parameter walks while there is a link; C06.21 absent slice bounds get their defaults.",
+    "C08": " C08.20 the trace walk returns early only without traces.",
+    "C09": " C09.15 the subcircuit builder writes the count it is given.",
+    "C13": " C13.24 condition under which a made-up definition is busy; C13.25 the relinker passes every constructor field.",
+    "C14": " C14.17 upper bound compared when the size is known; C14.18 absent slice bounds get their defaults.",
+    "C15": " C15.17 the trace walk returns early only without traces; C15.18 sense of the two cutoffs.",
+    "C16": " C16.30 sense of the distinct-qubits refusal; C16.31 the memo of contains_subcircuit is only made when absent.",
+    "C18": " C18.19 AbstractGate.copy applies each override when it is given.",
+}
+for _pid, _txt in ADDENDA10.items():
+    if _pid in PROPS:
+        PROPS[_pid]["explanation"] += _txt
+
+
 _p("C12", "other",
    "Narrow structural claim: the guards that the property's sentences name are present in DiscoverSubcircuits with the stated sense -- "
    "a trace is opened on the prepare gate and closed on the measure gate (positive equality); a measure gate without an open trace is refused; "
